@@ -6,7 +6,7 @@ every expected verdict is printed by TLC.  This module supplies structure only:
 
   entries      one per annotated schema node: keyword (`properties/<k>`), value alternative
                (`properties/<k>/<oneOf|anyOf|allOf>/<i>`) or whole object (file root), with its
-               bounds x10 as integers (NoMin = 0, NoMax = 10000), a probe value that is valid
+               bounds x100 as integers (7.6 -> 760; NoMin = 0, NoMax = 100000), a probe value that is valid
                without a version and, for an alternative, matches that alternative only
                (`shadow` = no such value exists: another alternative admits the value as well)
   contexts     for every block type the paths root type -> ... -> type (vocab child_single /
@@ -28,13 +28,14 @@ from . import vocab
 from .common import MachineryFailure
 
 REPO = vocab.REPO
-NOMIN, NOMAX = 0, 10000
-NOVERSION = 100000            # spec/Validator.tla NoVersion
+SCALE = 100                    # versions are held as integers x100: 7.64 -> 764
+NOMIN, NOMAX = 0, 100000
+NOVERSION = 1000000           # spec/Validator.tla NoVersion
 COMBS = ("oneOf", "anyOf", "allOf")
 
 
 def x10(f):
-    return int(round(f * 10))
+    return int(round(f * SCALE))
 
 
 def ann(node):
@@ -507,19 +508,25 @@ def get(repo=REPO):
 
 
 def vclass(entry, v):
-    """name of a version relative to the bounds of an entry (for signatures)"""
+    """name of a version relative to the bounds of an entry (for signatures): at a bound, less than
+    a tenth away from it (just-...), or further out / in"""
     if v is None or v == NOVERSION:
         return "none"
+    tenth = SCALE // 10
     if entry["min"] != NOMIN:
         if v == entry["min"]:
             return "at-min"
         if v < entry["min"]:
-            return "below-min"
+            return "below-min" if entry["min"] - v >= tenth else "just-below-min"
+        if v - entry["min"] < tenth:
+            return "just-above-min"
     if entry["max"] != NOMAX:
         if v == entry["max"]:
             return "at-max"
         if v > entry["max"]:
-            return "above-max"
+            return "above-max" if v - entry["max"] >= tenth else "just-above-max"
+        if entry["max"] - v < tenth:
+            return "just-below-max"
     return "inside"
 
 
